@@ -910,8 +910,32 @@ Fixpoint pfpat (n : nat) : parser fpat := fun ts =>
 Definition tkind_of (s : sym) : option tkind :=
   match s with Arrow => Some KNext | FatArrow => Some KOut | TArrow => Some KAsync | DArrow => Some KOutD | _ => None end.
 
-(* an assignable target: identifier with optional subscripts, no kind annotation *)
-Definition is_target (e : ex) : bool := match e with EVar _ None | ESlice _ _ => true | _ => false end.
+Definition is_alpha (c : ascii) : bool :=
+  let n := nat_of_ascii c in (Nat.leb 65 n && Nat.leb n 90) || (Nat.leb 97 n && Nat.leb n 122).
+Definition is_digit (c : ascii) : bool := let n := nat_of_ascii c in Nat.leb 48 n && Nat.leb n 57.
+
+Fixpoint all_chars (P : ascii -> bool) (s : string) : bool :=
+  match s with EmptyString => true | String c r => P c && all_chars P r end.
+
+(* after a leading `¬` the identifier may continue with letters, digits and `/`: `¬22/7` is an identifier *)
+Definition idtail_num (s : string) : bool :=
+  all_chars (fun c => is_alpha c || is_digit c || Ascii.eqb c "/") s.
+
+(* an assignable target as the statement grammar lexes it: an identifier with optional subscripts and no kind annotation;
+   `true`, `false` and a negation `¬x`, `¬¬x`, `¬true`, `¬5`, `¬10.25` (= `¬10` `.25`), `¬-x`, `¬x[1]` are identifiers
+   there (the identifier symbols include `¬ - + /`) *)
+Fixpoint nid_tail (e : ex) : bool :=
+  match e with
+  | EVar _ None | ELit (LBool _) None | ELit (LNum _) None | ESlice _ _ => true
+  | ENot e | ENeg e => nid_tail e
+  | _ => false
+  end.
+Definition is_target (e : ex) : bool :=
+  match e with
+  | EVar _ None | ESlice _ _ | ELit (LBool _) None => true
+  | ENot e' => nid_tail e'
+  | _ => false
+  end.
 Definition is_ftarget (p : fpat) : bool := match p with FExp e => is_target e | _ => false end.
 Definition next_target (t : trans) : bool := match fst t with KNext => is_ftarget (snd t) | _ => false end.
 Definition starts_fat (r : list tok) : bool := match r with TSp :: TSym FatArrow :: _ => true | _ => false end.
@@ -1389,6 +1413,7 @@ Fixpoint ends_dot (e : ex) : bool :=
 Fixpoint starts_ident (e : ex) : bool :=
   match e with
   | EVar _ _ | ECall _ _ | ESlice _ _ | ELit (LBool _) _ => true
+  | ENot _ => true                      (* `¬` begins an identifier: `x.a,¬y` is a swizzle too *)
   | ETrans e => starts_ident e
   | ETerm l _ => starts_ident l
   | ERange a _ _ _ => starts_ident a
@@ -1427,12 +1452,6 @@ Definition is_panic (t : tok) : bool := match t with TSym SPanic => true | _ => 
 
 (* ------------------------------------------------------------------ lexical side conditions (the token texts must
    lex back to the same tokens; checked by the judge on every case, not used by the token-level theorems) *)
-Definition is_alpha (c : ascii) : bool :=
-  let n := nat_of_ascii c in (Nat.leb 65 n && Nat.leb n 90) || (Nat.leb 97 n && Nat.leb n 122).
-Definition is_digit (c : ascii) : bool := let n := nat_of_ascii c in Nat.leb 48 n && Nat.leb n 57.
-
-Fixpoint all_chars (P : ascii -> bool) (s : string) : bool :=
-  match s with EmptyString => true | String c r => P c && all_chars P r end.
 Fixpoint last_char (s : string) (d : ascii) : ascii :=
   match s with EmptyString => d | String c r => last_char r c end.
 
@@ -2022,8 +2041,6 @@ Fixpoint starts_colon (e : ex) : bool :=
   end.
 
 (* after a leading `¬` the identifier may continue with letters, digits and `/`: `¬22/7` is a field name too *)
-Definition idtail_num (s : string) : bool :=
-  all_chars (fun c => is_alpha c || is_digit c || Ascii.eqb c "/") s.
 Fixpoint idlike_tail (e : ex) : bool :=
   match e with
   | EVar _ None => true
